@@ -53,10 +53,11 @@ F = Fraction
 MAXDEN = 4096              # iterates whose lattice denominator is larger are compared with a relative tolerance
 COARSE = 2.0 ** -26
 TOL_BITS = 20              # solvers are run with tol = 2^-20 (layer C checks that no tested quantity is near it)
-GROUPS = ['newton', 'bfgs', 'broyden', 'ncg', 'sd', 'adam', 'ls']
+SOLVERS = ['newton', 'bfgs', 'broyden', 'ncg', 'sd', 'adam']
+GROUPS = SOLVERS + ['ls0', 'ls1']         # families of MC_Smooth (the step-length histories in two halves)
 # quirks of the tree as pinned that layer C mirrors (SMOOTH_QUIRKS of MC_SmoothImpl); remove a name once the
 # corresponding proposal has been applied to /repo
-PINNED_QUIRKS = ['adam-bias', 'ncg-first', 'bt-alpha', 'store0']
+PINNED_QUIRKS = ['ncg-first']
 if os.environ.get('VERIF_SMOOTH_QUIRKS') is not None:          # e.g. "" when every proposal is applied to the tree under test
     PINNED_QUIRKS = [q_ for q_ in os.environ['VERIF_SMOOTH_QUIRKS'].split('+') if q_]
 
@@ -431,6 +432,7 @@ def mirror_run(I, num=Fraction, x_start=None, rule=None, restarts=()):
             if num is float:
                 eps = float(I.get('eps', 1e-8))
                 up = [mi / (sqrt(vi) + eps) for mi, vi in zip(mh, vh)]
+                small = min(small, min(sqrt(vi) for vi in vh))
             else:
                 sq = [msqrt(vi) for vi in vh]
                 if any(s is None for s in sq):
@@ -574,11 +576,11 @@ def base_inst(solver, P, x0, **kw):
 def _gen_catalogue():
     VALS = [-2, -1, 0, 1, 2, 3]
 
-    def cand_pairs(n, rnd, k):
+    def cand_pairs(n, rnd, k, halves=False):
         out = []
         while len(out) < k:
             s = tuple(rnd.choice(VALS) for _ in range(n))
-            x = tuple(rnd.choice(VALS) for _ in range(n))
+            x = tuple(rnd.choice(VALS) * (rnd.choice([1, 1, F(1, 2)]) if halves else 1) for _ in range(n))
             if s != x:
                 out.append((s, x))
         return out
@@ -586,20 +588,38 @@ def _gen_catalogue():
     def base(solver, mn, wn, sol, x0, **kw):
         return base_inst(solver, quadP(MATS[mn], WT(wn, len(sol)), sol), x0, **kw)
 
-    def pick(name, combos, variants, nfull, per=1, extra=(None,), ntry=300, quick=None):
+    def parallel(u, v):
+        u, v = [frac(a) for a in u], [frac(a) for a in v]
+        return all(u[i] * v[j] == u[j] * v[i] for i in range(len(u)) for j in range(i))
+
+    def turns(r):
+        """the run is not confined to one line (a start on an eigenvector makes every method look alike)"""
+        ds = [e['d'] for e in r['log']]
+        return len(ds[0]) == 1 or any(not parallel(ds[0], d) for d in ds[1:])
+
+    def pick(name, combos, variants, nfull, per=1, extra=(None,), ntry=300, quick=None, cond=None, anyof=None):
+        """anyof: options that are drawn per candidate instead of being enumerated (step lengths)"""
         rnd = random.Random(sum(map(ord, name)))
         res = []
         for (mn, wn) in combos:
             n = len(MATS[mn])
-            for ex in extra:
+            for ex0 in extra:
                 got = 0
-                for sol, x0 in cand_pairs(n, rnd, ntry):
+                for sol, x0 in cand_pairs(n, rnd, ntry, halves=anyof is not None):
+                    ex = ex0
+                    if anyof is not None:
+                        ex = (rnd.choice(anyof),) if ex0 is None else (ex0, rnd.choice(anyof))
                     okall = True
+                    runs = []
                     for I in variants(mn, wn, sol, x0, ex):
                         nf = nfull(I) if callable(nfull) else nfull
-                        if feasible(I, nf) is None:
+                        r = feasible(I, nf)
+                        if r is None:
                             okall = False
                             break
+                        runs.append((I, r))
+                    if okall and cond is not None and not cond(runs):
+                        okall = False
                     if okall:
                         tier = 0 if (got == 0 and (quick is None or (mn, wn) in quick)) else 1
                         res.append((mn, wn, sol, x0, tier, ex))
@@ -607,7 +627,7 @@ def _gen_catalogue():
                         if got >= per:
                             break
                 if got == 0:
-                    sys.stderr.write('%s: nothing for %s %s %s\n' % (name, mn, wn, ex))
+                    sys.stderr.write('%s: nothing for %s %s %s\n' % (name, mn, wn, ex0))
         return res
 
     C2 = [('S2a', '1'), ('S2b', 'c2'), ('S2c', 'a12'), ('S2e', 'ch'), ('S2d', '1'), ('D2', 'a21'), ('S2a', 'a21'),
@@ -629,41 +649,47 @@ def _gen_catalogue():
         n = len(sol)
         return [base('bfgs', mn, wn, sol, x0, ls=LSEX, store=m, N=n + 1) for m in (-1, 1, 2)] + \
                [base('ncg', mn, wn, sol, x0, ls=LSEX, beta=b, N=n + 1) for b in ('FR', 'PR', 'HS', 'DY')]
-    out['CGCases'] = pick('cg', ALLC, v_cg, lambda I: len(I['x0']), per=2, quick=QUICK)
+    out['CGCases'] = pick('cg', ALLC, v_cg, lambda I: len(I['x0']), per=2, quick=QUICK, cond=lambda rs: all(turns(r) for _, r in rs))
 
     def v_bfgsh(mn, wn, sol, x0, ex):
         n = len(sol)
         return [base('bfgs', mn, wn, sol, x0, ls=LSEX, h0=H0('D', n), N=n + 1)]
-    out['BFGSHCases'] = pick('bfgsh', ALLC, v_bfgsh, lambda I: len(I['x0']), per=2, quick=QUICK)
+    out['BFGSHCases'] = pick('bfgsh', ALLC, v_bfgsh, lambda I: len(I['x0']), per=2, quick=QUICK, cond=lambda rs: all(turns(r) for _, r in rs))
 
     def v_sdx(mn, wn, sol, x0, ex):
         return [base('sd', mn, wn, sol, x0, ls=LSEX), base('bfgs', mn, wn, sol, x0, ls=LSEX, store=0)]
-    out['SDXCases'] = pick('sdx', ALLC, v_sdx, 3, per=2, quick=QUICK)
+    out['SDXCases'] = pick('sdx', ALLC, v_sdx, 3, per=2, quick=QUICK, cond=lambda rs: all(turns(r) for _, r in rs))
 
     def v_bfgsc(mn, wn, sol, x0, ex):
         n = len(sol)
-        return [base('bfgs', mn, wn, sol, x0, ls=lsconst(F(1, 4)), store=m, h0=H0(h, n))
-                for m in (-1, 1) for h in ('I', 'S')]
-    out['BFGSCCases'] = pick('bfgsc', ALLC, v_bfgsc, 3, per=2, quick=QUICK)
+        return [base('bfgs', mn, wn, sol, x0, ls=lsconst(ex[0]), store=m, h0=H0(h, n))
+                for (m, h) in ((-1, 'I'), (1, 'I'), (-1, 'S'))]
+    def c_bfgsc(rs):
+        # the memory size and the initial estimate must matter: every variant ends somewhere else
+        ends = [tuple(frac(v) for v in r['x']) for _, r in rs]
+        return all(turns(r) for _, r in rs) and len(set(ends)) == len(ends)
+    out['BFGSCCases'] = pick('bfgsc', ALLC, v_bfgsc, 3, per=2, quick=QUICK, cond=c_bfgsc, anyof=[F(1), F(1, 2), F(1, 4), F(1, 8)], ntry=1500)
 
     def v_bfgsb(mn, wn, sol, x0, ex):
-        return [base('bfgs', mn, wn, sol, x0, ls=BT1)]
-    out['BFGSBCases'] = pick('bfgsb', ALLC, v_bfgsb, 3, per=2, quick=QUICK)
+        return [base('bfgs', mn, wn, sol, x0, ls=BT1, store=m) for m in (-1, 1)]
+    out['BFGSBCases'] = pick('bfgsb', ALLC, v_bfgsb, 3, per=2, quick=QUICK, cond=c_bfgsc)
 
     def v_bfull(mn, wn, sol, x0, ex):
         return [base('broyden', mn, wn, sol, x0, impl=ex, N=2 * len(sol))]
     out['BroydenFullCases'] = pick('bfull', ALLC, v_bfull, lambda I: min(3, len(I['x0']) + 1), per=2,
-                                   extra=['first', 'second'], quick=QUICK, ntry=600)
+                                   extra=['first', 'second'], quick=QUICK, ntry=600, cond=lambda rs: all(turns(r) for _, r in rs))
 
     def v_bstep(mn, wn, sol, x0, ex):
         n = len(sol)
         return [base('broyden', mn, wn, sol, x0, impl=ex, ls=ls, h0=H0(h, n))
                 for ls in (lsconst(F(1, 2)), LSEX) for h in ('I', 'S')]
-    out['BroydenStepCases'] = pick('bstep', ALLC, v_bstep, 2, per=1, extra=['first', 'second'], quick=QUICK, ntry=600)
+    out['BroydenStepCases'] = pick('bstep', ALLC, v_bstep, 3, per=1, extra=['first', 'second'], quick=QUICK, ntry=600,
+                                   cond=lambda rs: all(turns(r) for _, r in rs))
 
     def v_ncgc(mn, wn, sol, x0, ex):
-        return [base('ncg', mn, wn, sol, x0, beta=ex, ls=lsconst(F(1, 8)))]
-    out['NCGCCases'] = pick('ncgc', ALLC, v_ncgc, 3, per=1, extra=['FR', 'PR', 'HS', 'DY'], quick=QUICK, ntry=600)
+        return [base('ncg', mn, wn, sol, x0, beta=ex[0], ls=lsconst(ex[1]))]
+    out['NCGCCases'] = pick('ncgc', ALLC, v_ncgc, 3, per=1, extra=['FR', 'PR', 'HS', 'DY'], quick=QUICK, ntry=1500,
+                            anyof=[F(1, 2), F(1, 4), F(1, 8), F(1, 16)], cond=lambda rs: all(turns(r) for _, r in rs))
 
     def v_sdc(mn, wn, sol, x0, ex):
         return [base('sd', mn, wn, sol, x0, ls=ls, box=bx, N=4)
@@ -672,7 +698,7 @@ def _gen_catalogue():
 
     def v_sdb(mn, wn, sol, x0, ex):
         return [base('sd', mn, wn, sol, x0, ls=ls) for ls in (BT1, lsbt(F(1, 4), F(1, 4), 2, True))]
-    out['SDBCases'] = pick('sdb', ALLC, v_sdb, 3, per=2, quick=QUICK)
+    out['SDBCases'] = pick('sdb', ALLC, v_sdb, 3, per=2, quick=QUICK, cond=lambda rs: all(turns(r) for _, r in rs))
 
     def v_adam(mn, wn, sol, x0, ex):
         return [base('adam', mn, wn, sol, x0, lr=F(1, 4), b1=b1) for b1 in (0, F(1, 2), F(9, 10))]
@@ -735,7 +761,7 @@ CAT_HEADER = '''---------------------------- MODULE MC_SmoothCat ---------------
 (***************************************************************************)
 (* Base problems of the SmoothMachine catalogue (generated by              *)
 (*   python -m harness.extras.smooth gencat  and then frozen): tuples      *)
-(*   <<matrix, weights, minimiser, start, tier (, option)>>                *)
+(*   <<matrix, weights, minimiser, 2 * start, tier (, options)>>           *)
 (* picked by a seeded search so that the exact rational run of every       *)
 (* variant of the family (all option combinations of MC_Smooth, every      *)
 (* Return ; call-again boundary, the quantities of the invariants) needs   *)
@@ -746,23 +772,26 @@ CAT_HEADER = '''---------------------------- MODULE MC_SmoothCat ---------------
 EXTENDS Integers
 
 '''
-CAT_FIXED = '''\\* separable quartics  <<"quart", weights, t, start, tier>>  and linear functionals  <<"lin", weights, c, start, tier>>
+CAT_FIXED = '''\\* separable quartics  <<"quart", weights, t, 2 * start, tier>>  and linear functionals  <<"lin", weights, c, 2 * start, tier>>
 QuartCases ==
-  { <<"quart", "1", <<1, -1>>, <<4, 2>>, 0>>, <<"quart", "a12", <<0, 2>>, <<3, -1>>, 0>>,
-    <<"quart", "c2", <<1, 0, -1>>, <<-2, 3, 2>>, 0>>, <<"quart", "ch", <<2, 1>>, <<-1, 4>>, 1>>,
-    <<"quart", "a21", <<0, 1, 2>>, <<3, -2, 5>>, 1>> }
+  { <<"quart", "1", <<1, -1>>, <<8, 4>>, 0>>, <<"quart", "a12", <<0, 2>>, <<6, -2>>, 0>>,
+    <<"quart", "c2", <<1, 0, -1>>, <<-4, 6, 4>>, 0>>, <<"quart", "ch", <<2, 1>>, <<-2, 8>>, 1>>,
+    <<"quart", "a21", <<0, 1, 2>>, <<6, -4, 10>>, 1>> }
 LinCases ==
-  { <<"lin", "1", <<3, -4>>, <<1, 2>>, 0>>, <<"lin", "c2", <<2, -6, 4>>, <<0, 1, -1>>, 0>>,
-    <<"lin", "a12", <<-1, 4>>, <<2, 2>>, 0>>, <<"lin", "ch", <<1, 1, -3>>, <<1, 0, 2>>, 1>>,
-    <<"lin", "a21", <<4, -3, 8>>, <<-1, 1, 0>>, 1>> }
+  { <<"lin", "1", <<3, -4>>, <<2, 4>>, 0>>, <<"lin", "c2", <<2, -6, 4>>, <<0, 2, -2>>, 0>>,
+    <<"lin", "a12", <<-1, 4>>, <<4, 4>>, 0>>, <<"lin", "ch", <<1, 1, -3>>, <<2, 0, 4>>, 1>>,
+    <<"lin", "a21", <<4, -3, 8>>, <<-2, 2, 0>>, 1>> }
 '''
 
 
 def gencat(path=None):
     def tla_tuple(c):
         mn, wn, sol, x0, tier, ex = c
-        s = '<<"%s", "%s", <<%s>>, <<%s>>, %d' % (mn, wn, ', '.join(map(str, sol)), ', '.join(map(str, x0)), tier)
-        return s + (', "%s">>' % ex if ex is not None else '>>')
+        s = '<<"%s", "%s", <<%s>>, <<%s>>, %d' % (mn, wn, ', '.join(map(str, sol)),
+                                                  ', '.join(str(int(2 * Fraction(v))) for v in x0), tier)
+        for item in (() if ex is None else ex if isinstance(ex, tuple) else (ex,)):
+            s += ', <<%d, %d>>' % (item.numerator, item.denominator) if isinstance(item, Fraction) else ', "%s"' % item
+        return s + '>>'
     res = _gen_catalogue()
     body = ''
     for k, v in res.items():
@@ -804,6 +833,8 @@ def inst_from_json(J):
     P = J['P']
     Pd = dict(kind=P['kind'], tag=P.get('tag', ''), w=frv(P['w']), M=[frv(r) for r in P['M']], c=frv(P['c']),
               t=frv(P['t']), sol=frv(P['sol']))
+    if 'dg' in P:
+        Pd.update(dg=frv(P['dg']), tr=frv(P['tr']))
     ls = J['ls']
     lsd = dict(k=ls['k'], a=fr(ls['a']), seq=frv(ls['seq']), tau=fr(ls['tau']), disc=fr(ls['disc']),
                alpha0=fr(ls['alpha0']), est=bool(ls['est']), maxit=int(ls['maxit']))
@@ -817,9 +848,11 @@ def inst_to_json(I):
     """instance -> JSON in the shape of the TLA+ record (for events)"""
     qv = lambda v: [exact.to_q(Fraction(x)) for x in v]
     P, ls = I['P'], I['ls']
-    return dict(solver=I['solver'], fam=I.get('fam', ''),
-                P=dict(kind=P['kind'], tag=P.get('tag', ''), w=qv(P['w']), M=[qv(r) for r in (P.get('M') or [])],
-                       c=qv(P.get('c') or []), t=qv(P.get('t') or []), sol=qv(P.get('sol') or [])),
+    Pj = dict(kind=P['kind'], tag=P.get('tag', ''), w=qv(P['w']), M=[qv(r) for r in (P.get('M') or [])],
+              c=qv(P.get('c') or []), t=qv(P.get('t') or []), sol=qv(P.get('sol') or []))
+    if 'dg' in P:                               # (diagonal problem that is also built from ODL's own classes)
+        Pj.update(dg=qv(P['dg']), tr=qv(P['tr']))
+    return dict(solver=I['solver'], fam=I.get('fam', ''), P=Pj,
                 x0=qv(I['x0']), N=I['N'],
                 ls=dict(k=ls['k'], a=exact.to_q(Fraction(ls['a'])), seq=qv(ls['seq']), tau=exact.to_q(Fraction(ls['tau'])),
                         disc=exact.to_q(Fraction(ls['disc'])), alpha0=exact.to_q(Fraction(ls['alpha0'])),
@@ -1539,7 +1572,8 @@ def replay_solver_case(args):
             clause = clause_name(clause, pos)
             out['viol'].append((sig_of(I, clause, obs['recorded']),
                                 dict(stage_module=STAGE, kind='solver', inst=case['inst'], split=case['split'],
-                                     cz=cz, segs=segs, clause=clause, info=info)))
+                                     cz=cz, segs=segs, clause=clause, info=info,
+                                     expected={k: case[k] for k in ('split', 'seg', 'k', 'log', 'x', 'lo', 'ok', 'tie', 'conv')})))
         # layer C observables (drift only): the rule object's counters
         if not bad and obs['attrs'] and 'total' in obs['attrs']:
             lo = case['lo']
@@ -1639,11 +1673,15 @@ def replay_ls_case(args):
                                 'decrease condition' % (ci + 1, r['a']) if st == 'raise' else
                                 'call %d returned %r for a zero directional derivative' % (ci + 1, r['a'])))
                     break
+                if I['ls']['est']:
+                    break                    # the remembered step after an error is not specified: the history ends
                 continue
             if st == 'edge':
                 edge = True                                      # both readings of max_num_iter are acceptable
                 if r['raised'] is not None:
-                    break                                        # the object state after an error is not specified
+                    if I['ls']['est']:
+                        break                                    # the object state after an error is not specified
+                    continue
                 if not match_q(r['a'], fr(hh['a'])):
                     bad.append(('step', pos, 'call %d returned %r, expected %s' % (ci + 1, r['a'], fr(hh['a']))))
                     break
@@ -1927,7 +1965,8 @@ def driver_run_case(args):
         segs, restart = drv_calls(rnd, I)
         nreset = rnd.choice([0, 0, 1, 2]) if solver == 'ncg' and I['ls']['k'] in ('exact', 'const') else 0
         if nreset:
-            restart = [None] * len(segs)
+            # how many of the maxiter iterations a call with resets performs is not documented either: one call only
+            segs, restart = [I['N']], [None]
             scheds = ncg_schedules(segs, nreset)
             runsets = [mirror_calls(I, [m + nreset + 1 for m in segs], restart, scheds[0]), mirror_calls(I, segs, restart, scheds[1])]
         else:
@@ -1999,7 +2038,7 @@ def drv_ls_case(seed):
         Pq = Prob(P, Q32)
         ok = True
         try:
-            for qi in hist:
+            for hi, qi in enumerate(hist):
                 qq = queries[qi - 1]
                 x, d = [Q32(v) for v in qq['x']], [Q32(v) for v in qq['d']]
                 dd = Pq.inner(Pq.grad(x), d)
@@ -2011,9 +2050,9 @@ def drv_ls_case(seed):
                     if st in ('ok', 'edge'):
                         rule.alpha = abs(a)
                         rule.total += j
-                    elif st == 'raise':
-                        rule.calls += 1
-                        break                                    # the history ends with the error
+                    elif st in ('raise', 'nodescent') and ls['est']:
+                        hist = hist[:hi + 1]                     # the remembered step after an error is not specified
+                        break
                     rule.calls += 1
                 else:
                     rule(Pq, x, d, dd)
@@ -2141,7 +2180,7 @@ def tlc_env(group, tier, out=os.devnull, quirks=None):
     return {'SMOOTH_GROUP': group, 'SMOOTH_TIER': tier, 'OUT_FILE': out, 'SMOOTH_QUIRKS': '+'.join(q) if q else 'none'}
 
 
-QUIRK_GROUP = {'adam-bias': 'adam', 'ncg-first': 'ncg', 'bt-alpha': 'ls', 'store0': 'bfgs'}
+QUIRK_GROUP = {'adam-bias': 'adam', 'ncg-first': 'ncg', 'bt-alpha': 'ls0', 'store0': 'bfgs'}
 
 
 def validate_lines(ctx, episodes, on_fail):
@@ -2234,14 +2273,14 @@ def run_stage(ctx):
         if not cases:
             raise MachineryError('smooth: empty export for ' + g)
         ninst[g] = len(cases)
-        if g == 'ls':
+        if g.startswith('ls'):
             ltasks += [(c, quick, ctx.seed) for c in cases]
         else:
             stasks += [(c, quick, ctx.seed) for c in cases]
     nproc = 8 if quick else 12
     rnd = random.Random(ctx.seed * 7919 + 13)
     nrun, nls, npair = (140, 500, 60) if quick else (1500, 6000, 600)
-    dtasks = [(s, zlib.crc32(('%s/%d' % (s, i)).encode()) + 1000003 * ctx.seed) for s in GROUPS[:-1] for i in range(nrun)]
+    dtasks = [(s, zlib.crc32(('%s/%d' % (s, i)).encode()) + 1000003 * ctx.seed) for s in SOLVERS for i in range(nrun)]
     lstasks = [zlib.crc32(('ls/%d' % i).encode()) + 1000003 * ctx.seed for i in range(nls)]
     ptasks = [(lane, zlib.crc32(('%s/%d' % (lane, i)).encode()) + 1000003 * ctx.seed)
               for lane in ('adam', 'float32', 'large') for i in range(npair)]
@@ -2282,9 +2321,22 @@ def run_stage(ctx):
         ctx.count(r['key'], r['nontrivial'])
     if len(episodes) < (len(dtasks) + len(lstasks)) // 2:
         raise MachineryError('smooth: too few usable driver episodes (%d)' % len(episodes))
+    # self-test of the trace specification: one recorded episode with ONE corrupted field must be rejected
+    selftest = {'seen': False}
+    for ep in episodes:
+        its = [k for k, ln in enumerate(ep['lines']) if ln['op'] == 'iter' and ln['call']['has'] and not ln['call']['raised']
+               and ln['call']['dd'] != OFFQ]
+        if ep['meta']['kind'] == 'run' and its:
+            bad_ep = json.loads(json.dumps(dict(lines=ep['lines'], meta=dict(kind='selftest'))))
+            bad_ep['lines'][its[0]]['call']['dd'][0] += 1
+            episodes.append(bad_ep)
+            break
 
     def on_fail(ep, clauses):
         meta = ep['meta']
+        if meta['kind'] == 'selftest':
+            selftest['seen'] = 'dir-derivative' in clauses
+            return
         harness_cl = [c for c in clauses if c.startswith('harness-') or c == 'unknown-op']
         if harness_cl:
             raise MachineryError('smooth: trace line rejected for a harness reason %s: %s' % (harness_cl, json.dumps(meta)[:300]))
@@ -2303,6 +2355,10 @@ def run_stage(ctx):
                 sig = dict(stage=STAGE, solver='linesearch', clause=cl, opt='max_num_iter=None', rule='bt')
             ctx.violation(sig, dict(meta, stage_module=STAGE, tlc_clauses=clauses, lines=ep['lines'][:40]))
     nfail = validate_lines(ctx, episodes, on_fail)
+    if not selftest['seen']:
+        raise MachineryError('smooth: the trace specification accepted an episode with a corrupted dir_derivative')
+    episodes = [e for e in episodes if e['meta']['kind'] != 'selftest']
+    nfail -= 1
     ctx.traces += len(episodes)
     ctx.extra['smooth'] = {
         'exported_behaviours': ninst, 'replayed_behaviours': nreplayed,
@@ -2333,8 +2389,14 @@ def replay(body):
             print(' call %d: maxiter=%d rule calls/iterations=%d callbacks=%d raised=%s x=%s' % (
                 si + 1, so['maxiter'], len(so['ops']), sum(len(o['cbs']) for o in so['ops']), so['raised'], so['x']))
         print(' recorded: %s' % d['info'])
-        # the expectation comes from the specification: re-run TLC on the one instance through the trace specification
-        return _replay_through_trace(I, d['cz'], d['segs'], [None] * len(d['segs']), 0, sig['clause'])
+        # the expectation is the behaviour TLC exported (stored with the case)
+        case = dict(d['expected'], inst=case_inst, I=I)
+        segs, exp = expected_segments(case)
+        got = sorted(set(clause_name(c, p_) for c, p_, _ in compare_run(I, obs, exp, case['conv'], I['x0'])))
+        print(' contradicts the exported behaviour in:', got or 'nothing')
+        bad = sig['clause'] in got
+        print('REPRODUCED' if bad else 'NOT-REPRODUCED')
+        return 1 if bad else 0
     if kind == 'run':
         I = inst_from_json(d['inst'])
         restart = [None if r is None else [Fraction(v) for v in r] for r in d['restart']]
@@ -2379,14 +2441,11 @@ def _tlc_lines(lines, clause):
             got.update(re.findall(r'"([\w-]+)"', text))
         print('TLC (Trace_Smooth) rejects:', sorted(got) or 'nothing', '(status %s)' % res.status)
         alt = {'step-first-call': 'step', 'step': 'step-first-call'}
-        bad = clause in got or alt.get(clause) in got or (bool(got) and clause not in NONTRACE)
+        bad = clause in got or alt.get(clause) in got
         print('REPRODUCED' if bad else 'NOT-REPRODUCED')
         return 1 if bad else 0
     finally:
         shutil.rmtree(work, ignore_errors=True)
-
-
-NONTRACE = ()
 
 
 def _replay_through_trace(I, cz, segs, restart, nreset, clause):
